@@ -268,15 +268,12 @@ example : (Spec.Dot.parse (Dot.dot [.RankDir .LR] ⟨.debug, true⟩ exGraph)).m
 `tools/extract_c18.py` re-derives `Extracted.C18` from `/repo/src`; these theorems state that the generated
 constants and tables are the ones the mirror models (and hence all theorems above) are built from. -/
 
-/-- graph6 constants: `N`, the largest supported order, the header widths, the group size, the padding
-bit, the header slices of the decoder. -/
+/-- graph6 constants: `N`, the largest supported order, the header decision list of the encoder (generated from
+`get_graph_order_as_bits` as a function of `get_number_as_bits`), the group size, the padding bit, the header slices of
+the decoder. -/
 theorem C18_extracted_graph6 :
     Extracted.C18.encN = G6.N ∧ Extracted.C18.decN = G6.N ∧ Extracted.C18.maxOrder = G6.maxOrder ∧
-    (∀ order, G6.orderBits order =
-      if order < Extracted.C18.encN then some (G6.numberBits order Extracted.C18.shortBits)
-      else if order ≤ Extracted.C18.maxOrder then
-        some (G6.numberBits Extracted.C18.encN Extracted.C18.markerBits ++ G6.numberBits order Extracted.C18.longBits)
-      else none) ∧
+    (∀ order, G6.orderBits order = Extracted.C18.orderBits G6.numberBits order) ∧
     (∀ bits, G6.padTo6 bits =
       bits ++ List.replicate ((Extracted.C18.encGroup - bits.length % Extracted.C18.encGroup) % Extracted.C18.encGroup)
         (Extracted.C18.padBit != 0)) ∧
@@ -296,6 +293,16 @@ theorem C18_extracted_graph6 :
   · intro first rest h1
     have : ¬ first = G6.N := h1
     simp [G6.splitHeader, Extracted.C18.shortBody, this]
+
+/-- graph6 encoder, the byte of a chunk: `char::from((N + value) as u8)` where `value` is the big-endian base-2 number of
+the chunk (the extractor recognises `from_str_radix(<joined digits>, 2)`, `fold(0, |v, b| 2 * v + b)` and
+`fold(0, |v, b| (v << 1) | b)`) — the model's `Char.ofNat (N + bitsToNat c)`; and `get_number_as_bits` of the encoder and
+of the decoder emit the most significant bit first (`(n >> i) & 1` for `i` over `(0..bits_length).rev()`), as `G6.numberBits`. -/
+theorem C18_extracted_graph6_byte :
+    Extracted.C18.encOffset = G6.N ∧
+    (∀ c, G6.bitsToNat c = c.foldl (fun acc b => Extracted.C18.encRadix * acc + b.toNat) 0) ∧
+    Extracted.C18.encMsbFirst = true ∧ Extracted.C18.decMsbFirst = true :=
+  ⟨rfl, fun _ => rfl, rfl, rfl⟩
 
 /-- Dot tables: the escaper's arms, `TYPE`, `EDGE`, `INDENT`, the `rankdir` values. -/
 theorem C18_extracted_dot :
